@@ -69,7 +69,7 @@ GEN = {
     ("C20", "thorough"): [("passthru", ["R:1", "P:A"], 2, 2, 0, 0, NINE), ("passthru", ["R:1"], 1, 1, 0, 0, SEVENTEEN), ("basic", ["P:A", "R:A", "P:S"], 3, 1, 1, 1), ("chord", ["P:LEFTCTRL", "P:K", "R:K"], 3, 1, 2, 0), ("norep", ["P:LEFTSHIFT", "P:A", "P:S"], 3, 1, 1, 0)],
 }
 # C06 at the loop (see ALIAS): a running repeat, held keys and chords across tablet-mode changes
-GEN[("C06", "quick")] = [("tapchord", ["P:A", "R:A", "P:B"], 3, 2, 1, 0), ("basic", ["P:S"], 1, 2, 2, 0), ("shiftchord", ["P:LEFTSHIFT", "P:A", "R:LEFTSHIFT"], 3, 1, 0, 0), ("chord", ["P:LEFTCTRL", "P:K"], 2, 1, 1, 0)]
+GEN[("C06", "quick")] = [("basic", ["P:S"], 1, 2, 2, 0), ("shiftchord", ["P:LEFTSHIFT", "P:A", "R:LEFTSHIFT"], 3, 1, 0, 0), ("chord", ["P:LEFTCTRL", "P:K"], 2, 1, 1, 0)]
 GEN[("C06", "thorough")] = GEN[("C12", "thorough")]
 # C18 at the real driver (see ALIAS): large batches - nine keys released at once by the tablet switch, bursts of pass-through events
 GEN[("C18", "quick")] = [("passthru", ["R:1"], 1, 1, 0, 0, NINE), ("basic", ["P:A", "R:A"], 1, 1, 0, 0, 20)]
@@ -207,6 +207,33 @@ def walk_traces(exe, wd, prop, tier):
         run_tmv(exe, ["walk", jp], stdout_path=tp)
         traces.append(tp)
     return jobs, traces
+
+
+# hand-written scenarios in the label language of Loop.tla (data): histories that are too long for exhaustive enumeration, one event per wake-up
+SCENARIOS = {
+    # a key tapped inside one write, a tablet episode, then a repeat whose chord is that key
+    "C06": [("tapchord", "P:A R:A On Off P:B to to R:B"), ("tapchord", "P:A R:A On P:Z Off P:B to to"), ("tapchord", "P:B to R:B P:A R:A Off P:B to to")],
+    "C11": [("tapchord", "P:A R:A P:B to to R:B P:A R:A P:B to")],
+    "C12": [("tapchord", "P:A R:A On Off P:B to to R:B")],
+}
+
+
+def scenario_cases(prop):
+    L = lambda a, t="", k="", x="": {"a": a, "t": t, "k": k, "x": x}
+    out = []
+    for i, (lname, text) in enumerate(SCENARIOS.get(prop, [])):
+        sched = []
+        for tok in text.split():
+            if tok in ("On", "Off"):
+                sched += [L("arrT", tok), L("poll", "dev", "", "KT"), L("readT"), L("readT")]
+            elif tok == "to":
+                sched += [L("poll", "timeout", "", "timed")]
+            else:
+                sched += [L("arrK", tok[0], tok[2:]), L("poll", "dev", "", "KT"), L("readK"), L("readK")]
+        sched += [L("arrK", "E"), L("poll", "dev", "", "KT"), L("readK")]
+        for mode in ("no", "yes"):
+            out.append({"id": "SCN-%s-%d-%s" % (prop, i, mode), "lname": lname, "layout": LAYOUTS[lname], "sched": sched, "sleep": mode, "faults": 0})
+    return out
 
 
 def big_batch_cases():
@@ -377,7 +404,7 @@ def startup_runs(res, exe, wd, tier):
 
 # loop-level clauses that are ALSO what another property says, seen at the loop: C06 ("after the release-all operation used on tablet-mode
 # changes nothing is held ... answers as a newly created mapper ... no memory of ... repeat triggers survives")
-ALIAS = {"C06": {"C12-repeat-survives-tablet-switch", "C12-not-fresh-after-tablet-mode", "C12-not-released-at-tablet-on"},
+ALIAS = {"C06": {"C12-repeat-survives-tablet-switch", "C12-not-fresh-after-tablet-mode", "C12-not-released-at-tablet-on", "C12-chord-not-as-fresh-after-tablet-mode"},
          # C18 at the real driver ("for every batch of output events the bytes written are one record per event ... followed by exactly one
          # SYN_REPORT"): under the real driver every write is decoded and logged as one send, so a batch that is split, merged, truncated or
          # malformed on its way through RealDriver::send / DevInputWriter::send shows as a payload that is not the batch
@@ -458,6 +485,7 @@ def variants(prop, tier, cases):
         out += [dict(c, faults="all") for c in big_batch_cases()[:1 if tier == "quick" else 3]]
     if prop in ("C10", "C18"):
         out += big_batch_cases()
+    out += scenario_cases(prop)
     # the same runs one level lower: the REAL driver (mio, evdev-format reads, uinput-format writes) with the three system
     # calls it makes answered by the same scripted environment; MSC/SYN framing, auto-repeat and unnamed-key noise rotate
     stride = {"quick": 3, "thorough": 2}[tier] if prop != "C18" else 1      # (C18's loop-level part is about the real driver only)
